@@ -39,6 +39,16 @@ CHECKS = {
             "slips fail), and the message entities' tree conversion is round-tripped.",
             "Trusts the protobuf runtime and the pinned field/kind table; unset == proto default.",
             "5/C10"),
+    "C12": ("fault_enumeration",
+            "fault injection at every layer and direction of the real transport/protocol stack under a deterministic "
+            "scheduler, against a Noise responder double; generated sender programs, incoming stanzas and schedules",
+            "Every (layer, direction) site is enumerated with a fixed sequence and generated sequences/schedules add positions "
+            "and interleavings; natural faults (unencodable value, 16 MiB frame, send before login, undecodable frame, stanzas "
+            "rejected by design, raising application callback) are provoked through the public entry points. Blocking is decided "
+            "logically by the scheduler (a task waiting on a lock nobody can release), never by a timeout.",
+            "Interleavings at lock/queue operations and function calls of the anchored files under the GIL; a fault at or below "
+            "the cipher loses a ciphertext, so same-connection ordering is only required above it.",
+            "5/C12"),
     "C13": ("fault_enumeration",
             "model-based generated operation scripts over the real SQLite store (dict model in lock-step) + crash-point "
             "enumeration of every mutating operation with a previous-or-new oracle",
